@@ -358,3 +358,459 @@ pub fn parse_found(shm: &Shm) -> Vec<(String, String, Value)> {
     }
     out
 }
+
+// ------------------------------------------------------------------------------------------------
+// C13: table files give back exactly what was put in
+// ------------------------------------------------------------------------------------------------
+
+use raindb::verif::{table_build, table_open, VerifEntry, VerifGet};
+use raindb::DbOptions;
+
+pub fn table_keys() -> Vec<Vec<u8>> {
+    vec![vec![], vec![0x00], b"a".to_vec(), vec![b'a', 0x00], b"ab".to_vec(), b"b".to_vec(), vec![0xff], vec![0xff, 0xff]]
+}
+
+/// extra probe keys: separators / neighbours of the stored keys
+pub fn probe_keys() -> Vec<Vec<u8>> {
+    let mut v = table_keys();
+    v.extend([vec![0x00, 0x00], vec![b'a', 0x00, 0x00], b"aa".to_vec(), b"abc".to_vec(), b"ac".to_vec(), b"c".to_vec(), vec![0xfe], vec![0xff, 0x00], vec![0xff, 0xff, 0xff]]);
+    v.sort();
+    v.dedup();
+    v
+}
+
+/// version patterns per key: newest first; true = put
+pub const PATTERNS: &[&[bool]] = &[&[true], &[false], &[true, true], &[false, true], &[true, false, true]];
+
+pub const VALUE_SIZES: &[usize] = &[0, 1, 100, 5000];
+
+#[derive(Clone, Debug)]
+pub struct TableCase {
+    pub keys: Vec<usize>,
+    pub patterns: Vec<usize>,
+    pub block_size: usize,
+    pub variant: usize,
+    pub big_values: bool,
+}
+
+pub fn table_entries(c: &TableCase) -> Vec<VerifEntry> {
+    let ks = table_keys();
+    let total: usize = c.patterns.iter().map(|&p| PATTERNS[p].len()).sum();
+    let mut seq = total as u64 + 1;
+    let mut out = vec![];
+    let mut idx = 0usize;
+    // keys ascending; within a key sequence numbers descending
+    let mut pairs: Vec<(usize, usize)> = c.keys.iter().copied().zip(c.patterns.iter().copied()).collect();
+    pairs.sort_by(|a, b| ks[a.0].cmp(&ks[b.0]));
+    // sequence numbers: assign so that they are unique and descending within a key
+    for (k, p) in pairs {
+        for &is_put in PATTERNS[p] {
+            seq -= 1;
+            let size = if c.big_values { 3000 } else { VALUE_SIZES[(idx + c.variant) % VALUE_SIZES.len()] };
+            let val: Vec<u8> = if is_put { (0..size).map(|j| ((idx * 37 + j * 11 + 5) & 0xff) as u8).collect() } else { vec![] };
+            out.push((ks[k].clone(), seq, is_put, val));
+            idx += 1;
+        }
+    }
+    out
+}
+
+fn ikey_less(a: (&[u8], u64), b: (&[u8], u64)) -> bool {
+    a.0 < b.0 || (a.0 == b.0 && a.1 > b.1)
+}
+
+fn table_options(fs: &VerifFs, block_size: usize) -> DbOptions {
+    DbOptions {
+        db_path: "/t".to_string(),
+        max_memtable_size: 4 << 20,
+        max_file_size: 2 << 20,
+        max_block_size: block_size,
+        filesystem_provider: arc_fs(fs),
+        filter_policy: Arc::new(raindb::BloomFilterPolicy::new(10)),
+        block_cache: raindb::verif::block_cache(64),
+        create_if_missing: true,
+        error_if_exists: false,
+        reuse_log_files: true,
+    }
+}
+
+fn show_entry(e: &VerifEntry) -> String {
+    format!("{}@{}{}({}B)", crate::world::esc(&e.0), e.1, if e.2 { "" } else { "del" }, e.3.len())
+}
+
+pub fn table_case_json(c: &TableCase) -> Value {
+    json!({
+        "entries": table_entries(c).iter().map(show_entry).collect::<Vec<_>>(),
+        "max_block_size": c.block_size,
+        "keys": c.keys, "patterns": c.patterns, "variant": c.variant, "big_values": c.big_values,
+    })
+}
+
+/// model cursor over the entry vector
+fn model_seek(entries: &[VerifEntry], key: &[u8], seq: u64) -> Option<usize> {
+    entries.iter().position(|e| !ikey_less((&e.0, e.1), (key, seq)))
+}
+
+pub fn table_case(c: &TableCase, shm: &Shm, check_filters: bool, cursor_len: usize) {
+    let entries = table_entries(c);
+    let fs = VerifFs::new();
+    let _ = fs.create_dir_all(Path::new("/t/data"));
+    let opts = table_options(&fs, c.block_size);
+    shm.add(C_CASES, 1);
+    let fail = |clause: &str, detail: String| found(shm, clause, &detail, table_case_json(c));
+    if let Err(e) = table_build(opts.clone(), 7, &entries) {
+        fail("C13.build_err", format!("building the table failed: {}", e));
+        return;
+    }
+    let t = match table_open(opts.clone(), 7) {
+        Ok(t) => t,
+        Err(e) => {
+            fail("C13.open_err", format!("opening the table failed: {}", e));
+            return;
+        }
+    };
+    // blocks: every entry is in exactly one block, in order
+    let blocks = match t.blocks() {
+        Ok(b) => b,
+        Err(e) => {
+            fail("C13.blocks_err", format!("reading the blocks failed: {}", e));
+            return;
+        }
+    };
+    let flat: Vec<VerifEntry> = blocks.iter().flat_map(|b| b.2.iter().cloned()).collect();
+    if flat != entries {
+        fail("C13.blocks_content", format!("blocks hold {:?} but the table was built from {:?}", flat.iter().map(show_entry).collect::<Vec<_>>(), entries.iter().map(show_entry).collect::<Vec<_>>()));
+        return;
+    }
+    if blocks.len() > 1 || entries.len() > 3 {
+        shm.add(C_NONTRIVIAL, 1);
+    }
+    shm.max(C_MAX_FILE_ENTRIES, blocks.len() as u64);
+    // forward / backward iteration
+    let mut it = t.iter();
+    let mut fwd = vec![];
+    if let Err(e) = it.seek_to_first() {
+        fail("C13.iter_err", format!("seek_to_first failed: {}", e));
+        return;
+    }
+    while it.is_valid() {
+        match it.current() {
+            Some(e) => fwd.push(e),
+            None => break,
+        }
+        if fwd.len() > entries.len() + 2 {
+            break;
+        }
+        it.next();
+    }
+    if fwd != entries {
+        fail("C13.forward", format!("forward iteration yields {:?} but the table holds {:?}", fwd.iter().map(show_entry).collect::<Vec<_>>(), entries.iter().map(show_entry).collect::<Vec<_>>()));
+        return;
+    }
+    let mut bwd = vec![];
+    if let Err(e) = it.seek_to_last() {
+        fail("C13.iter_err", format!("seek_to_last failed: {}", e));
+        return;
+    }
+    while it.is_valid() {
+        match it.current() {
+            Some(e) => bwd.push(e),
+            None => break,
+        }
+        if bwd.len() > entries.len() + 2 {
+            break;
+        }
+        it.prev();
+    }
+    bwd.reverse();
+    if bwd != entries {
+        fail("C13.backward", format!("backward iteration yields {:?} but the table holds {:?}", bwd.iter().map(show_entry).collect::<Vec<_>>(), entries.iter().map(show_entry).collect::<Vec<_>>()));
+        return;
+    }
+    // probes
+    let seqs: Vec<u64> = (0..=(entries.len() as u64 + 2)).chain(std::iter::once((1u64 << 56) - 1)).collect();
+    for k in probe_keys() {
+        for &s in seqs.iter() {
+            shm.add(C_USER, 1);
+            // seek
+            let want = model_seek(&entries, &k, s);
+            if let Err(e) = it.seek(&k, s) {
+                fail("C13.iter_err", format!("seek({}, {}) failed: {}", crate::world::esc(&k), s, e));
+                return;
+            }
+            let got = if it.is_valid() { it.current() } else { None };
+            if got.as_ref() != want.map(|i| &entries[i]) {
+                fail(
+                    "C13.seek",
+                    format!("seek({}@{}) lands on {:?} but the first entry not less than the target is {:?}", crate::world::esc(&k), s, got.as_ref().map(show_entry), want.map(|i| show_entry(&entries[i]))),
+                );
+                return;
+            }
+            // get
+            let newest = entries.iter().find(|e| e.0 == k && e.1 <= s);
+            let want_get = match newest {
+                Some(e) if e.2 => VerifGet::Value(e.3.clone()),
+                Some(_) => VerifGet::Deleted,
+                None => VerifGet::NotInFile,
+            };
+            let got_get = t.get(&k, s);
+            if got_get != want_get {
+                let sh = |g: &VerifGet| match g {
+                    VerifGet::Value(v) => format!("Value({}B)", v.len()),
+                    o => format!("{:?}", o),
+                };
+                fail("C13.get", format!("get({}, seq<={}) = {} but the table says {}", crate::world::esc(&k), s, sh(&got_get), sh(&want_get)));
+                return;
+            }
+        }
+    }
+    // cursor programs of length <= cursor_len from every start position
+    // ops: 0 first, 1 last, 2 next, 3 prev, 4.. seek to entry i / just past entry i
+    let n = entries.len();
+    let n_ops = 4 + n;
+    let mut prog = vec![0usize; cursor_len];
+    let total = n_ops.pow(cursor_len as u32);
+    for code in 0..total {
+        let mut x = code;
+        for p in prog.iter_mut() {
+            *p = x % n_ops;
+            x /= n_ops;
+        }
+        let mut cur: Option<usize> = None;
+        let mut it = t.iter();
+        let mut trace = vec![];
+        for &op in prog.iter() {
+            match op {
+                0 => {
+                    let _ = it.seek_to_first();
+                    cur = if n > 0 { Some(0) } else { None };
+                    trace.push("first".to_string());
+                }
+                1 => {
+                    let _ = it.seek_to_last();
+                    cur = if n > 0 { Some(n - 1) } else { None };
+                    trace.push("last".to_string());
+                }
+                2 => {
+                    if cur.is_none() {
+                        continue;
+                    }
+                    it.next();
+                    cur = cur.and_then(|i| if i + 1 < n { Some(i + 1) } else { None });
+                    trace.push("next".to_string());
+                }
+                3 => {
+                    if cur.is_none() {
+                        continue;
+                    }
+                    it.prev();
+                    cur = cur.and_then(|i| if i > 0 { Some(i - 1) } else { None });
+                    trace.push("prev".to_string());
+                }
+                j => {
+                    let e = &entries[j - 4];
+                    let _ = it.seek(&e.0, e.1);
+                    cur = Some(j - 4);
+                    trace.push(format!("seek({})", show_entry(e)));
+                }
+            }
+            shm.add(C_USER + 1, 1);
+            let got = if it.is_valid() { it.current() } else { None };
+            if got.as_ref() != cur.map(|i| &entries[i]) {
+                fail("C13.cursor", format!("after [{}] the cursor is at {:?} but should be at {:?}", trace.join(", "), got.as_ref().map(show_entry), cur.map(|i| show_entry(&entries[i]))));
+                return;
+            }
+        }
+    }
+    if check_filters {
+        // C14 (ii): the filter consulted with a block's offset matches every user key in it
+        for (off, _size, es) in blocks.iter() {
+            for e in es {
+                shm.add(C_USER + 2, 1);
+                if t.filter_may_match(*off, &e.0) == Some(false) {
+                    found(
+                        shm,
+                        "C14.block_filter",
+                        &format!("the filter for the block at offset {} answers 'no match' for user key {} stored in that block", off, crate::world::esc(&e.0)),
+                        table_case_json(c),
+                    );
+                    return;
+                }
+                // and the lookup finds every stored (key, seq)
+                match t.get(&e.0, e.1) {
+                    VerifGet::Value(v) if e.2 && v == e.3 => {}
+                    VerifGet::Deleted if !e.2 => {}
+                    o => {
+                        found(
+                            shm,
+                            "C14.lookup_cut_short",
+                            &format!("get({}, {}) on the table that stores it answers {:?}", crate::world::esc(&e.0), e.1, match o { VerifGet::Value(v) => format!("Value({}B)", v.len()), x => format!("{:?}", x) }),
+                            table_case_json(c),
+                        );
+                        return;
+                    }
+                }
+            }
+        }
+    }
+}
+
+pub fn table_cases(max_keys: usize, block_sizes: &[usize], variants: usize) -> Vec<TableCase> {
+    let nk = table_keys().len();
+    let mut subsets: Vec<Vec<usize>> = vec![];
+    fn rec(start: usize, nk: usize, max: usize, cur: &mut Vec<usize>, out: &mut Vec<Vec<usize>>) {
+        if !cur.is_empty() {
+            out.push(cur.clone());
+        }
+        if cur.len() == max {
+            return;
+        }
+        for i in start..nk {
+            cur.push(i);
+            rec(i + 1, nk, max, cur, out);
+            cur.pop();
+        }
+    }
+    rec(0, nk, max_keys, &mut vec![], &mut subsets);
+    let mut v = vec![];
+    for s in subsets.iter() {
+        let np = PATTERNS.len();
+        let total = np.pow(s.len() as u32);
+        for code in 0..total {
+            let mut x = code;
+            let pats: Vec<usize> = s
+                .iter()
+                .map(|_| {
+                    let p = x % np;
+                    x /= np;
+                    p
+                })
+                .collect();
+            for &b in block_sizes {
+                for variant in 0..variants {
+                    v.push(TableCase { keys: s.clone(), patterns: pats.clone(), block_size: b, variant, big_values: false });
+                }
+            }
+        }
+    }
+    v
+}
+
+/// C14 (ii) extras: 3000-byte values (one block spans several 2 KiB filter ranges) and 1-byte
+/// blocks (many blocks per range)
+pub fn filter_table_cases() -> Vec<TableCase> {
+    let mut v = vec![];
+    for keys in [vec![0usize, 2, 4, 5, 6], vec![1, 2, 3, 4, 7], vec![0, 1, 2, 3, 4, 5, 6, 7]] {
+        for p in 0..PATTERNS.len() {
+            for &b in &[1usize, 16, 2048, 4096, 1 << 20] {
+                for big in [false, true] {
+                    v.push(TableCase { keys: keys.clone(), patterns: keys.iter().map(|_| p).collect(), block_size: b, variant: 0, big_values: big });
+                }
+            }
+        }
+    }
+    v
+}
+
+// ------------------------------------------------------------------------------------------------
+// C14 (i): the public Bloom filter policy
+// ------------------------------------------------------------------------------------------------
+
+pub fn bloom_alphabet_keys() -> Vec<Vec<u8>> {
+    let a = [0x00u8, 0x61, 0xff];
+    let mut v: Vec<Vec<u8>> = vec![vec![]];
+    for len in 1..=3usize {
+        let total = 3usize.pow(len as u32);
+        for code in 0..total {
+            let mut x = code;
+            let mut k = vec![];
+            for _ in 0..len {
+                k.push(a[x % 3]);
+                x /= 3;
+            }
+            v.push(k);
+        }
+    }
+    v
+}
+
+pub fn generated_keys(n: usize, salt: u64) -> Vec<Vec<u8>> {
+    let mut s = salt.wrapping_mul(0x9E3779B97F4A7C15) | 1;
+    (0..n)
+        .map(|i| {
+            s ^= s << 13;
+            s ^= s >> 7;
+            s ^= s << 17;
+            let len = (s % 24) as usize;
+            let mut k: Vec<u8> = (0..len).map(|j| ((s >> ((j % 8) * 8)) as u8) ^ (j as u8)).collect();
+            k.extend_from_slice(&(i as u32).to_le_bytes());
+            k
+        })
+        .collect()
+}
+
+/// One job = one bits_per_key value over all key sets.
+pub fn bloom_job(bits: usize, shm: &Shm, max_set: usize, big_sets: &[usize]) {
+    use raindb::FilterPolicy;
+    let policy = raindb::BloomFilterPolicy::new(bits);
+    let ks = bloom_alphabet_keys();
+    let n = ks.len();
+    let mut check = |set: &[Vec<u8>], label: &str| -> bool {
+        let filter = policy.create_filter(set);
+        shm.add(C_CASES, 1);
+        if set.len() >= 2 {
+            shm.add(C_NONTRIVIAL, 1);
+        }
+        for k in set {
+            shm.add(C_USER + 3, 1);
+            match policy.key_may_match(k, &filter) {
+                Ok(true) => {}
+                other => {
+                    found(
+                        shm,
+                        "C14.bloom_false_negative",
+                        &format!("bits_per_key={}: key {} of the set answers {:?}", bits, crate::world::esc(k), other.map_err(|e| e.to_string())),
+                        json!({"bits_per_key": bits, "set": label, "keys": set.iter().map(|k| crate::world::esc(k)).collect::<Vec<_>>().iter().take(12).collect::<Vec<_>>()}),
+                    );
+                    return false;
+                }
+            }
+        }
+        true
+    };
+    if !check(&[], "empty") {
+        return;
+    }
+    // all multisets of size 1..=max_set (with duplicates)
+    for i in 0..n {
+        if !check(&[ks[i].clone()], "1") {
+            return;
+        }
+        if max_set >= 2 {
+            for j in i..n {
+                if !check(&[ks[i].clone(), ks[j].clone()], "2") {
+                    return;
+                }
+                if max_set >= 3 {
+                    for l in j..n {
+                        if !check(&[ks[i].clone(), ks[j].clone(), ks[l].clone()], "3") {
+                            return;
+                        }
+                    }
+                }
+            }
+        }
+    }
+    for &sz in big_sets {
+        let set = generated_keys(sz, sz as u64 + bits as u64 * 1000);
+        if !check(&set, &format!("generated{}", sz)) {
+            return;
+        }
+        // with duplicates
+        let mut dup = set.clone();
+        dup.extend(set.iter().take(sz / 2).cloned());
+        if !check(&dup, &format!("generated{}+dups", sz)) {
+            return;
+        }
+    }
+}
